@@ -381,6 +381,17 @@ func buildRoute(r RouteIn) (conf_v1.Route, []conf_v1.Upstream) {
 		rt.Action = &conf_v1.Action{Return: &conf_v1.ActionReturn{Code: 200, Type: "text/plain", Body: "hello"}}
 	case "redirect":
 		rt.Action = &conf_v1.Action{Redirect: &conf_v1.ActionRedirect{URL: "http://www.example.com", Code: 301}}
+	case "grpc":
+		n := upName(r.Path, "-g")
+		ups = append(ups, conf_v1.Upstream{Name: n, Service: "svc" + n, Port: 50051, Type: "grpc"})
+		rt.Action = &conf_v1.Action{Pass: n}
+	case "errpage":
+		// error pages for the very code the error return uses, once as a named location, once as a redirect
+		rt.Action = &conf_v1.Action{Pass: up("")}
+		rt.ErrorPages = []conf_v1.ErrorPage{
+			{Codes: []int{500, 502}, Return: &conf_v1.ErrorPageReturn{ActionReturn: conf_v1.ActionReturn{Code: 200, Type: "text/plain", Body: "sorry"}}},
+			{Codes: []int{503}, Redirect: &conf_v1.ErrorPageRedirect{ActionRedirect: conf_v1.ActionRedirect{URL: "http://www.example.com/err", Code: 301}}},
+		}
 	default:
 		rt.Action = &conf_v1.Action{Pass: up("")}
 	}
@@ -618,6 +629,7 @@ func runWorld(w *World) (obs Obs) {
 	}
 	ctx := context.Background()
 	cfg := configs.NewDefaultConfigParams(ctx, w.Plus)
+	cfg.HTTP2 = true // gRPC upstreams need it
 	static := &configs.StaticConfigParams{
 		DefaultHTTPListenerPort: 80, DefaultHTTPSListenerPort: 443, StaticSSLPath: "/etc/nginx/secrets",
 		NginxVersion: nginx.NewVersion(ver), AppProtectBundlePath: bd, MainAppProtectLoadModule: w.Plus,
@@ -1026,7 +1038,7 @@ func productWorld(r *vh.Rng, g Gen, plus bool) World {
 		addPolicyOfKind(&w, g.Kind, "p-same")
 		scopeRefs = append([]RefIn{{Name: "p-same"}}, badRefs...)
 	}
-	shape := vh.Pick(r, []string{"pass", "pass", "splits", "matches", "return"})
+	shape := vh.Pick(r, []string{"pass", "pass", "splits", "matches", "return", "grpc", "errpage"})
 	vs := &VSIn{NS: ns, Name: "vs", Host: "h.example.com", TLS: tls, TLSName: "tls-ok", Policies: specRefs}
 	ctl := RouteIn{Path: "/ctl", Shape: "pass"}
 	switch g.Scope {
@@ -1243,7 +1255,9 @@ func randomWorld(r *vh.Rng) World {
 		}
 		return out
 	}
-	shape := func() string { return vh.Pick(r, []string{"pass", "pass", "splits", "matches", "return", "redirect"}) }
+	shape := func() string {
+		return vh.Pick(r, []string{"pass", "pass", "splits", "matches", "return", "redirect", "grpc", "errpage"})
+	}
 	vs := &VSIn{NS: ns, Name: "vs", Host: "h.example.com", TLS: r.Chance(4, 5), TLSName: "tls-ok", Policies: pick(4)}
 	nr := 1 + r.Intn(2)
 	for i := 0; i < nr; i++ {
